@@ -195,3 +195,33 @@ pub fn f0_sentinel_align() {
     }
     kani::cover!(true, "REACH: end of harness");
 }
+
+/// Infallible twin of the constructor: when the global allocator refuses, `with_min_align_and_capacity(c)`
+/// (c > 0) must not return, exactly where `try_with_min_align_and_capacity(c)` returns Err.
+pub fn f0_ctor_twin<const M: usize>() {
+    unsafe {
+        NLOG = 0;
+        let c: usize = kani::any();
+        kani::assume(c > 0);
+        let r = Bump::<M>::try_with_min_align_and_capacity(c);
+        vassert!(r.is_err(), "NEVER: [C09] fallible constructor succeeded although the global allocator refused");
+        core::mem::forget(r);
+        let b = Bump::<M>::with_min_align_and_capacity(c);
+        kani::cover!(true, "NEVER: [C09] with_min_align_and_capacity returned although try_with_min_align_and_capacity fails in the same situation");
+        core::mem::forget(b);
+    }
+}
+#[kani::proof]
+#[kani::unwind(5)]
+#[kani::stub(crate::core_alloc::alloc::alloc, alloc_null)]
+#[kani::stub(crate::core_alloc::alloc::dealloc, dealloc_count)]
+pub fn f0_ctor_twin_m1() {
+    f0_ctor_twin::<1>();
+}
+#[kani::proof]
+#[kani::unwind(5)]
+#[kani::stub(crate::core_alloc::alloc::alloc, alloc_null)]
+#[kani::stub(crate::core_alloc::alloc::dealloc, dealloc_count)]
+pub fn f0_ctor_twin_m8() {
+    f0_ctor_twin::<8>();
+}
